@@ -225,6 +225,11 @@ func (io *IO) Write(ctx context.Context, ipfs coreiface.CoreAPI, obj interface{}
 	switch o := obj.(type) {
 	case logiface.IPFSLogEntry:
 		c := CidFromToken(Hash(contentOf(o)))
+		tok := -1
+		if cl := o.GetClock(); cl != nil && cl.Defined() {
+			tok = EventBegin(fmt.Sprintf("block-write:t=%d:w=%s", cl.GetTime(), string(cl.GetID())))
+		}
+		defer EventEnd(tok)
 		stored := o.Copy()
 		stored.SetHash(cid.Cid{})
 		io.B.mu.Lock()
@@ -457,17 +462,24 @@ type Cache struct {
 	Log    *EffectLog
 	Closed int
 	Puts   int
+	// Label summarises a value for Event labels (set by harnesses that replay schedules).
+	Label func(key string, value []byte) string
 }
 
 func NewCache(log *EffectLog) *Cache { return &Cache{M: map[string][]byte{}, Log: log} }
 
 func (c *Cache) Put(ctx context.Context, key datastore.Key, value []byte) error {
-	Yield()
+	label := "cache-put:" + key.String()
+	if c.Label != nil {
+		label += ":" + c.Label(key.String(), value)
+	}
+	tok := EventBegin(label)
 	c.mu.Lock()
 	c.M[key.String()] = value
 	c.Puts++
 	c.mu.Unlock()
 	c.Log.add(Effect{Kind: "cache-put", Key: key.String(), Value: value})
+	EventEnd(tok)
 	return nil
 }
 
